@@ -1,10 +1,12 @@
 #!/usr/bin/env python3
-"""seed_final.py [seed-id ...]
+"""seed_final.py [seed-id ...] | --summary
 Final regression over the kept seeded changes (/verif/seeded/S*): each patch is applied to a scratch worktree of /repo's
 HEAD (patch.rebased*.diff is preferred when the original no longer applies after later repairs), the checks named in
 its meta.json are run from an isolated copy of /verif against that worktree (quick tier), and the verdict is written to
 seeded/<id>/final.json and summarised in seeded/FINAL.md. Nothing is applied to /repo itself; the library's own suite
-is not re-run here (seed_eval.py did that when the seed was admitted)."""
+is not re-run here (seed_eval.py did that when the seed was admitted). Several invocations with disjoint seed lists may run
+side by side (SEEDFINAL_SLOT=<n> gives each its own copy of /verif); `--summary` rewrites seeded/FINAL.md from the final.json
+files."""
 import sys, os, json, glob, subprocess, time
 
 ENV = dict(os.environ, GOFLAGS="-mod=mod", GOPROXY="off")
@@ -15,12 +17,30 @@ def sh(cmd, cwd=None, timeout=3000, env=None):
     return p.returncode, p.stdout
 
 
+def summary(head):
+    rows = []
+    for d in sorted(glob.glob("/verif/seeded/S*")):
+        f = os.path.join(d, "final.json")
+        if os.path.exists(f):
+            rows.append(json.load(open(f)))
+    with open("/verif/seeded/FINAL.md", "w") as f:
+        f.write("# Final regression over the seeded changes (repo HEAD %s)\n\n" % head)
+        f.write("| seed | patch used | verdict | checks |\n|---|---|---|---|\n")
+        for r in rows:
+            f.write("| %s | %s | %s | %s |\n" % (r["seed"], r.get("patch"), r["verdict"] + ("" if r.get("repo_head") == head else " (at %s)" % r.get("repo_head")),
+                                               "; ".join("%s exit %d%s" % (k, v["exit"], " (no failing input)" if "no-failing-input-found" in v["line"] else "")
+                                                         for k, v in r["checks"].items())))
+    print(len(rows), "rows;", sum(1 for r in rows if r["verdict"] == "reported with a failing input"), "reported with a failing input")
+
+
 def main():
+    head = sh(["git", "-C", "/repo", "rev-parse", "--short", "HEAD"])[1].strip()
+    if sys.argv[1:] == ["--summary"]:
+        return summary(head)
     want = set(sys.argv[1:])
-    vdir = "/root/ws/seedfinal/verif"
+    vdir = "/root/ws/seedfinal%s/verif" % os.environ.get("SEEDFINAL_SLOT", "")
     os.makedirs(vdir, exist_ok=True)
     sh("rsync -a --delete --exclude work --exclude replays --exclude evidence /verif/ %s/" % vdir)
-    head = sh(["git", "-C", "/repo", "rev-parse", "--short", "HEAD"])[1].strip()
     rows = []
     for d in sorted(glob.glob("/verif/seeded/S*")):
         sid = os.path.basename(d)
@@ -76,13 +96,7 @@ def main():
         rows.append(res)
         print(sid, res["verdict"], {k: v["exit"] for k, v in res["checks"].items()}, flush=True)
     if not want:
-        with open("/verif/seeded/FINAL.md", "w") as f:
-            f.write("# Final regression over the seeded changes (repo HEAD %s)\n\n" % head)
-            f.write("| seed | patch used | verdict | checks |\n|---|---|---|---|\n")
-            for r in rows:
-                f.write("| %s | %s | %s | %s |\n" % (r["seed"], r.get("patch"), r["verdict"],
-                                                   "; ".join("%s exit %d%s" % (k, v["exit"], " (no failing input)" if "no-failing-input-found" in v["line"] else "")
-                                                             for k, v in r["checks"].items())))
+        summary(head)
 
 
 main()
